@@ -250,7 +250,7 @@ func (g *Gen) assumeZeroElems(st *State, arr string, et types.Type) {
 				return
 			}
 			s := g.sortOf(t)
-			h := g.heap(st, g.heapKeyFor(s), s)
+			h := g.heap(st, g.heapKeyT(t), s)
 			g.sc.Assume(fmt.Sprintf("(forall ((k Int)) (! (= (select %s %s) %s) :pattern ((Elem %s k))))", h.S, strings.ReplaceAll(addr, "@K", "k"), g.zero(t).S, arr))
 		}
 		_ = stt
@@ -263,7 +263,7 @@ func (g *Gen) assumeZeroElems(st *State, arr string, et types.Type) {
 		}
 	}
 	s := g.sortOf(et)
-	h := g.heap(st, g.heapKeyFor(s), s)
+	h := g.heap(st, g.heapKeyT(et), s)
 	g.sc.Assume(fmt.Sprintf("(forall ((k Int)) (! (= (select %s (Elem %s k)) %s) :pattern ((Elem %s k))))", h.S, arr, g.zero(et).S, arr))
 }
 
@@ -312,6 +312,11 @@ func (fr *Frame) execUnOp(ins *ssa.UnOp, c *blockCtx) {
 		et := ins.X.Type().Underlying().(*types.Pointer).Elem()
 		t := fr.define(ins, g.load(c.st, a.S, et))
 		g.sc.Assume(g.typeInv(t.S, et))
+		if gl, ok := ins.X.(*ssa.Global); ok && t.Sort == SIface && types.Identical(et, types.Universe.Lookup("error").Type()) {
+			// package-level error sentinels are initialised to distinct non-nil values and never reassigned
+			g.sc.Assume(not(eq(t.S, "nilIface")))
+			g.usedAssumed["sentinel error "+gl.Pkg.Pkg.Path()+"."+gl.Name()+" is non-nil"] = true
+		}
 	case token.NOT:
 		fr.define(ins, Term{not(fr.val(ins.X).S), SBool})
 	case token.SUB:
@@ -344,7 +349,7 @@ func (fr *Frame) execStore(addr ssa.Value, val ssa.Value, c *blockCtx, ins ssa.I
 	if arrA, idx, at, ok := fr.leafArrayElem(addr); ok {
 		whole := g.loadLeaf(c.st, arrA.S, at)
 		s := g.sortOf(at)
-		g.writeCell(c.st, g.heapKeyFor(s), s, arrA.S, sto(whole.S, idx.S, v.S))
+		g.writeCell(c.st, g.heapKeyT(at), s, arrA.S, sto(whole.S, idx.S, v.S))
 		return
 	}
 	a := fr.val(addr)
@@ -550,7 +555,7 @@ func (fr *Frame) execConvert(ins *ssa.Convert, c *blockCtx) {
 			g.declSort("Bytes")
 			g.sc.DeclareOnce("bytesOf", "(declare-fun bytesOf ((Array Ref Int) Slice) Bytes)")
 			g.sc.DeclareOnce("strOfBytes", "(declare-fun strOfBytes (Bytes) Str)\n(declare-fun bytesOfStr (Str) Bytes)\n(assert (forall ((b Bytes)) (! (= (bytesOfStr (strOfBytes b)) b) :pattern ((strOfBytes b)))))\n(assert (forall ((s Str)) (! (= (strOfBytes (bytesOfStr s)) s) :pattern ((bytesOfStr s)))))")
-			h := g.heap(c.st, g.heapKeyFor(SInt), SInt)
+			h := g.heap(c.st, g.heapKeyT(types.Typ[types.Uint8]), SInt)
 			t := fr.define(ins, Term{app("strOfBytes", app("bytesOf", h.S, x.S)), SStr})
 			g.sc.Assume(fmt.Sprintf("(= (strlen %s) (slen %s))", t.S, x.S))
 			return
@@ -568,7 +573,7 @@ func (fr *Frame) execConvert(ins *ssa.Convert, c *blockCtx) {
 			g.sc.DeclareOnce("strOfBytes", "(declare-fun strOfBytes (Bytes) Str)\n(declare-fun bytesOfStr (Str) Bytes)\n(assert (forall ((b Bytes)) (! (= (bytesOfStr (strOfBytes b)) b) :pattern ((strOfBytes b)))))\n(assert (forall ((s Str)) (! (= (strOfBytes (bytesOfStr s)) s) :pattern ((bytesOfStr s)))))")
 			obj := g.newObj()
 			t := fr.define(ins, Term{fmt.Sprintf("(mkSlice %s 0 (strlen %s) (strlen %s))", obj, x.S, x.S), SSlice})
-			h := g.heap(c.st, g.heapKeyFor(SInt), SInt)
+			h := g.heap(c.st, g.heapKeyT(types.Typ[types.Uint8]), SInt)
 			g.sc.Assume(eq(app("bytesOf", h.S, t.S), app("bytesOfStr", x.S)))
 			return
 		}
@@ -681,7 +686,7 @@ func (fr *Frame) execSlice(ins *ssa.Slice, c *blockCtx) {
 			w := g.sc.Define("arrview", whole)
 			es := g.sortOf(arr.Elem())
 			for k := int64(0); k < arr.Len(); k++ {
-				g.writeCell(c.st, g.heapKeyFor(es), es, fmt.Sprintf("(Elem %s %d)", x.S, k), sel(w.S, fmt.Sprint(k)))
+				g.writeCell(c.st, g.heapKeyT(arr.Elem()), es, fmt.Sprintf("(Elem %s %d)", x.S, k), sel(w.S, fmt.Sprint(k)))
 			}
 			fr.arrViews[ins] = arrView{arr: x, t: xt.Elem()}
 		}
@@ -710,12 +715,12 @@ func (fr *Frame) syncArrView(v ssa.Value, st *State) {
 	arr := av.t.Underlying().(*types.Array)
 	es := g.sortOf(arr.Elem())
 	s := g.sortOf(av.t)
-	h := g.heap(st, g.heapKeyFor(es), es)
+	h := g.heap(st, g.heapKeyT(arr.Elem()), es)
 	cur := g.loadLeaf(st, av.arr.S, av.t).S
 	for k := int64(0); k < arr.Len(); k++ {
 		cur = sto(cur, fmt.Sprint(k), sel(h.S, fmt.Sprintf("(Elem %s %d)", av.arr.S, k)))
 	}
-	g.writeCell(st, g.heapKeyFor(s), s, av.arr.S, cur)
+	g.writeCell(st, g.heapKeyT(av.t), s, av.arr.S, cur)
 }
 
 // ---------- maps ----------
